@@ -100,11 +100,14 @@ def _(self):
     ensures(self.number_of_bits == old(self.number_of_bits) - old(self.number_of_bits) % 8 and self.value == old(self.value))
 
 
-@contract("Decoder.read_length_determinant", props=["C06", "C16", "C08"])
+@contract("Decoder.read_length_determinant", props=["C06", "C16", "C08", "C07"])
 def _(self) -> Nat:
-    raises(OutOfDataError)
+    # X.696 8.6: exact value and exact consumption as functions of the unread bits
+    raises_iff(OutOfDataError, self.number_of_bits < 8 or self.number_of_bits < oer_ld_size(self.value, self.number_of_bits))
     assigns(self)
-    ensures(self.number_of_bits < old(self.number_of_bits) and self.value == old(self.value))
+    ensures(self.value == old(self.value))
+    ensures(self.number_of_bits == old(self.number_of_bits) - oer_ld_size(self.value, old(self.number_of_bits)))
+    ensures(result == oer_ld_val(self.value, old(self.number_of_bits)))
     ensures(result >= 0)
 
 
@@ -112,7 +115,9 @@ def _(self) -> Nat:
 def _(self) -> Nat:
     raises(OutOfDataError)
     assigns(self)
-    ensures(self.number_of_bits < old(self.number_of_bits) and self.value == old(self.value))
+    ensures(self.value == old(self.value))
+    ensures(self.number_of_bits == old(self.number_of_bits) - oer_ld_size(self.value, old(self.number_of_bits))
+            - 8 * oer_ld_val(self.value, old(self.number_of_bits)))
 
 
 @contract("Decoder.read_integer", props=["C06", "C16", "C08"])
@@ -121,16 +126,25 @@ def _(self) -> Int:
     # a zero length determinant is not a valid INTEGER encoding; the decoder then fails on a negative shift count
     raises(ValueError)
     assigns(self)
-    ensures(self.number_of_bits < old(self.number_of_bits) and self.value == old(self.value))
+    ensures(self.value == old(self.value))
+    ensures(self.number_of_bits == old(self.number_of_bits) - oer_ld_size(self.value, old(self.number_of_bits))
+            - 8 * oer_ld_val(self.value, old(self.number_of_bits)))
+    ensures(self.number_of_bits < old(self.number_of_bits))
 
 
-@contract("Decoder.read_tag", props=["C06", "C16", "C08"])
+@contract("Decoder.read_tag", props=["C06", "C16", "C08", "C07"])
 def _(self) -> Bytes:
+    # X.696 8.7: exact consumption as a function of the unread bits
     raises(OutOfDataError)
     assigns(self)
     ensures(self.number_of_bits < old(self.number_of_bits) and self.value == old(self.value) and len(result) >= 1)
+    ensures(self.number_of_bits == old(self.number_of_bits) - 8 * oer_tag_len(self.value, old(self.number_of_bits)))
+    ensures(len(result) == oer_tag_len(self.value, old(self.number_of_bits)))
     loop(0, invariant=[self.number_of_bits <= old(self.number_of_bits) - 8, self.value == old(self.value),
-                       self.total_number_of_bits == old(self.total_number_of_bits)],
+                       self.total_number_of_bits == old(self.total_number_of_bits),
+                       8 * len(tag) == old(self.number_of_bits) - self.number_of_bits,
+                       oer_tag_len(self.value, old(self.number_of_bits))
+                       == len(tag) + oer_tag_cont(self.value, self.number_of_bits)],
          decreases=self.number_of_bits)
 
 
@@ -248,6 +262,8 @@ def _(self, offset: Nat):
 
 @contract("Decoder.clear_bit", props=["C06", "C16", "C08"])
 def _(self):
+    # clears the next unread bit (and drops the bits already read, which are never looked at again)
     requires(self.number_of_bits >= 1)
     assigns(self)
-    ensures(self.number_of_bits == old(self.number_of_bits) and self.value <= old(self.value))
+    ensures(self.number_of_bits == old(self.number_of_bits) and self.value == old(self.value) % pow2(self.number_of_bits - 1))
+    ensures(self.value <= old(self.value))
